@@ -63,6 +63,15 @@ def judge_is_connection(ctx: Ctx, exp: str) -> None:
                 ok = False  # located slot with an unaccepted direction / index expression
     ctx.judge(f, ok, slot, exp + "; edges are looked up at their (elementwise) lesser endpoint, layer 1 iff the rows are equal",
               "the batch edge test disagrees with nodes_connected for some orientation of an edge")
+    # a query does not change what it is asked about: no in-place operation on the parameters (callers tokenize the same edge array afterwards)
+    params = set(f.params())
+    INPLACE = {"sort", "fill", "put", "resize", "partition", "itemset", "setfield", "byteswap"}
+    muts = [X.U(c)[:60] for c in X.calls(f.node) if isinstance(c.func, ast.Attribute) and c.func.attr in INPLACE and isinstance(c.func.value, ast.Name) and c.func.value.id in params]
+    muts += [X.U(s_)[:60] for s_ in ast.walk(f.node) if isinstance(s_, (ast.Assign, ast.AugAssign))
+             for t_ in (s_.targets if isinstance(s_, ast.Assign) else [s_.target]) if isinstance(t_, ast.Subscript) and isinstance(t_.value, ast.Name) and t_.value.id in params]
+    muts += [X.U(c)[:60] for c in X.calls(f.node) if any(k.arg == "out" and isinstance(k.value, ast.Name) and k.value.id in params for k in c.keywords)]
+    ctx.judge(f, not muts, {"in_place_operations_on_parameters": muts}, "is_connection leaves its arguments unchanged (np.sort returns a sorted copy)",
+              "the caller's edge array is re-ordered under its feet: the orientation chosen by the edge permuter is undone before the edges are tokenized")
 
 
 def rule_V1(ctx: Ctx) -> None:
@@ -492,6 +501,11 @@ def _query_deviations(ac, shape, es, limit=3, which=None, component_once=False):
     run("coord_degrees", [], [[len(adj.get((i, j), ())) for j in range(shape[1])] for i in range(shape[0])], conv=lambda v: v.data if isinstance(v, Arr) else v)
     run("get_nodes", [], cells, conv=lambda v: sorted(AM.as_cells(v)))
     run("as_adj_list", [False, False], sorted(tuple(sorted(e)) for e in es), "False, False", conv=lambda v: sorted(tuple(sorted(map(tuple, pair))) for pair in (v.data if isinstance(v, Arr) else v)))
+    # rebuilding from the adjacency list (square grids; precondition of the statement: the highest row and column index occur in a connection)
+    if shape[0] == shape[1] and es and max(max(a[0], b[0]) for a, b in es) == shape[0] - 1 and max(max(a[1], b[1]) for a, b in es) == shape[1] - 1:
+        adj_arr = Arr([[list(a), list(b)] for a, b in sorted(es)])
+        run("from_adj_list", [adj_arr], AM.connection_list(shape, es).data, "as_adj_list()",
+            conv=lambda v: [[[bool(c_) for c_ in r_] for r_ in l_] for l_ in v.attrs["connection_list"].data] if hasattr(v, "attrs") else v)
     # candidate paths: empty, single cells, every ordered pair, walks of three cells, cells outside the grid
     r, c = shape
     paths = [([], None)] + [([a], True) for a in cells[:2]]
@@ -516,7 +530,7 @@ def _query_deviations(ac, shape, es, limit=3, which=None, component_once=False):
     return n, bad, unk
 
 
-def neighbour_queries_rule(rule_id: str, supersedes: list[str], whole_rules: list[str], component_once: bool = False):
+def neighbour_queries_rule(rule_id: str, supersedes: list[str], whole_rules: list[str], component_once: bool = False, which: set | None = None):
     """for properties that rely on the neighbour / component queries (C02 solver expansion, C03 endpoint sampling): the same bounded
     semantic check restricted to nodes_connected / get_coord_neighbors / gen_connected_component_from, superseding their structural re-judgements"""
     def run(ctx: Ctx) -> None:
@@ -525,20 +539,20 @@ def neighbour_queries_rule(rule_id: str, supersedes: list[str], whole_rules: lis
         from sa.absobj import AbstractClass
 
         graphs = list(AM.all_graphs(2, 2)) + list(AM.all_graphs(2, 3)) + list(AM.all_graphs(3, 2)) + AM.sampled_graphs(3, 3, 48 if ctx.tier != "thorough" else 600)
-        ac = AbstractClass(ctx.index, f"{LM}.LatticeMaze", extra_calls=MODELS, max_steps=60_000)
-        which = {"nodes_connected", "get_coord_neighbors", "gen_connected_component_from"}
-        res = AM.parallel_map(lambda g: _query_deviations(ac, g[0], g[1], which=which, component_once=component_once), graphs)
+        ac = AbstractClass(ctx.index, f"{LM}.LatticeMaze", extra_calls={**MODELS, **{k_: (lambda **kw: __import__("sa.fold", fromlist=["Obj"]).Obj("LatticeMaze", dict(kw))) for k_ in ("cls", "LatticeMaze")}}, max_steps=60_000)
+        qs = which or {"nodes_connected", "get_coord_neighbors", "gen_connected_component_from"}
+        res = AM.parallel_map(lambda g: _query_deviations(ac, g[0], g[1], which=qs, component_once=component_once), graphs)
         n_calls = sum(r[0] for r in res)
         bad = [b for r in res for b in r[1]]
         unk = [u for r in res for u in r[2]]
         c = ctx.index.cls(f"{LM}.LatticeMaze")
         ctx.judge(c, False if bad else None if unk else True, {"abstract_mazes": len(graphs), "interpreted_queries": n_calls, "deviations": bad[:3], "undecided": unk[:2]},
-                  "on every abstract maze, nodes_connected, get_coord_neighbors and gen_connected_component_from answer exactly what the edge set says"
+                  f"on every abstract maze, {', '.join(sorted(qs))} answer exactly what the edge set says"
                   + (" (each reachable cell listed exactly once)" if component_once else ""),
                   "the neighbour / component query describes another graph than the connection structure")
         if not bad and not unk:
             q = f"{LM}.LatticeMaze."
-            ctx.cover([q + n_ for n_ in sorted(which)], by=ctx.current_rule, supersedes=sorted({*supersedes, ctx.current_rule}), whole_rules=whole_rules,
+            ctx.cover([q + n_ for n_ in sorted(qs)], by=ctx.current_rule, supersedes=sorted({*supersedes, ctx.current_rule}), whole_rules=whole_rules,
                       bound=f"{len(graphs)} abstract mazes (every edge set of 2x2, 2x3, 3x2; sampled 3x3), {n_calls} interpreted queries")
     return run
 
@@ -556,7 +570,7 @@ def rule_V8(ctx: Ctx) -> None:
         graphs += list(AM.all_graphs(3, 3)) + AM.sampled_graphs(2, 4, 120) + AM.sampled_graphs(4, 2, 120) + AM.sampled_graphs(4, 3, 120) + AM.sampled_graphs(3, 4, 120)
     else:
         graphs += AM.sampled_graphs(3, 3, 48)
-    ac = AbstractClass(ctx.index, f"{LM}.LatticeMaze", extra_calls=MODELS, max_steps=60_000)
+    ac = AbstractClass(ctx.index, f"{LM}.LatticeMaze", extra_calls={**MODELS, **{k_: (lambda **kw: __import__("sa.fold", fromlist=["Obj"]).Obj("LatticeMaze", dict(kw))) for k_ in ("cls", "LatticeMaze")}}, max_steps=60_000)
     res = AM.parallel_map(lambda g: _query_deviations(ac, g[0], g[1]), graphs)
     n_calls = sum(r[0] for r in res)
     bad = [b for r in res for b in r[1]]
